@@ -132,8 +132,11 @@ class QModuleMixin(ABC):
                     self.weight_group_size = group_size
         self.activation_qtype = activations
         self.optimizer = optimizer
-        self.register_buffer("input_scale", torch.ones(()))
-        self.register_buffer("output_scale", torch.ones(()))
+        # The activation scales must have the dtype of the module, otherwise quantized activations (and the module
+        # outputs) are silently promoted to float32 until the scales are replaced by calibration
+        scale_dtype = kwargs.get("dtype", None)
+        self.register_buffer("input_scale", torch.ones((), dtype=scale_dtype))
+        self.register_buffer("output_scale", torch.ones((), dtype=scale_dtype))
 
     def _save_to_state_dict(self, destination, prefix, keep_vars):
         if self.weight_qtype is None or not self.frozen:
